@@ -122,16 +122,18 @@ def _frac_velocity(dim, shape, k):
     return out
 
 
-def case_euler_exact(kind, dim, field_type, pattern):
+def case_euler_exact(kind, dim, field_type, pattern, shape=None, fixed=False):
     import sopht.numeric.eulerian_grid_ops as spne
 
     real_t = np.float64
-    shape = (7, 8) if dim == 2 else (6, 7, 8)
+    shape = tuple(shape) if shape is not None else ((7, 8) if dim == 2 else (6, 7, 8))
     fails = []
     s = f"_{dim}d"
     trans = 0
     c = Fraction(3, 7) if pattern % 2 == 0 else Fraction(1, 10)
     kw = {} if dim == 2 else {"field_type": field_type}
+    if fixed:  # as the simulators call the generators
+        kw["fixed_grid_size"] = shape
     ncomp = 3 if field_type == "vector" else 1
     fields = [_frac_field(shape, pattern + 5 * q) for q in range(ncomp)]
     if kind == "advection":
@@ -257,6 +259,13 @@ def run(r) -> None:
             ex.append(dict(kind=kind, dim=2, field_type="scalar", pattern=p + r.seed % 3))
             for ft in ("scalar", "vector"):
                 ex.append(dict(kind=kind, dim=3, field_type=ft, pattern=p + r.seed % 3))
+    # grid-shape alphabet (every ordering of three different sizes) with fixed_grid_size given, as the simulators do
+    for kind in ("advection", "diffusion"):
+        for sh in ((8, 7),):
+            ex.append(dict(kind=kind, dim=2, field_type="scalar", pattern=1, shape=sh, fixed=True))
+        for sh in ((8, 6, 7), (6, 8, 7), (7, 6, 8), (8, 7, 6)):
+            for ft in ("scalar", "vector"):
+                ex.append(dict(kind=kind, dim=3, field_type=ft, pattern=1, shape=sh, fixed=True))
     r.run_cases("euler-exact", "euler_exact", ex)
     r.bounds = {"ssprk3_grids": shapes, "dt_by_2dx": cs, "velocity_patterns": 2, "impulses": "every component x cell",
                 "euler_exact": "advection/diffusion, 2-D and 3-D scalar/vector, Fraction arithmetic, velocity alphabet {-2,-1,0,1,2,1/2} incl. ties", "patterns": len(list(pats))}
